@@ -37,6 +37,7 @@ COMPAT = {
     "bits": {"leading_zeros"},          # bits = BITS - leading_zeros (and back), by definition
     "leading_zeros": {"bits"},
 }
+MIRROR = {"cmp_gt": "cmp_lt", "cmp_lt": "cmp_gt"}
 # only for self types under modular:: (Montgomery-form operators are modular by definition)
 COMPAT_MODULAR = {"add": {"add_mod"}, "sub": {"sub_mod"}, "neg": {"neg_mod"}, "mul": {"mul_mod"},
                   "double": {"double_mod"}}
@@ -143,7 +144,8 @@ def run(facts, report, config):
         st = (b.get("impl_self") or "") + " " + b["id"]
         if "modular::" in st:
             ok_fams |= COMPAT_MODULAR.get(own, set())
-        if cfam not in ok_fams:
+        mirrored = MIRROR.get(own) == cfam
+        if cfam not in ok_fams and not mirrored:
             problems.append("family: `%s` (family %s) forwards to `%s` (family %s)" % (b.get("name"), own, cname, cfam))
         # R2 operand order
         prov = OrderProv(view)
@@ -168,7 +170,16 @@ def run(facts, report, config):
             p0, pure0 = param_set(args[0])
             p1, pure1 = param_set(args[1])
             detail["arg_params"] = [sorted(p0), sorted(p1)]
-            if pure0 and pure1 and p0 and p1:
+            if pure0 and pure1 and p0 and p1 and mirrored:
+                # `a > b` expressed as `b < a`: the operands must be swapped
+                if p0 == {2} and p1 == {1}:
+                    order = "swapped(mirrored comparison)"
+                elif p0 == {1} and p1 == {2}:
+                    problems.append("operand order: `%s` forwards to the mirrored comparison `%s` without swapping the "
+                                    "operands" % (b.get("name"), mir.last_seg(cname)))
+                else:
+                    order = "mixed"
+            elif pure0 and pure1 and p0 and p1:
                 if p0 == {2} and p1 == {1}:
                     if own in NONCOMMUTATIVE or cfam in NONCOMMUTATIVE:
                         problems.append("operand order: callee receiver comes from the second operand and its "
@@ -470,3 +481,71 @@ def _fmt_sig(sig):
             s = "%s(%s)" % (c, s)
         parts.append(s)
     return "{" + ", ".join(parts) + "}"
+
+
+# ---------------------------------------------------------------------------------------------
+# R6 overflow-mode agreement: an operator form that must panic on overflow does not forward to a wrapping or
+# saturating form (and a checked form does not forward to a wrapping one), except on `Wrapping<T>`.
+
+MODE_PREFIX = (("wrapping_", "wrapping"), ("checked_", "checked"), ("saturating_", "saturating"),
+               ("overflowing_", "flagged"), ("carrying_", "flagged"), ("borrowing_", "flagged"), ("widening_", "wide"))
+OVERFLOWING_FAMILIES = {"add", "sub", "mul", "neg", "square", "shl", "shr"}
+OPERATOR_TRAITS = ("core::ops::",)
+
+
+def _mode(name):
+    for p, m in MODE_PREFIX:
+        if (name or "").startswith(p):
+            return m
+    if name in ("adc", "sbb", "mac", "adc_assign", "sbb_assign"):
+        return "flagged"
+    return "plain"
+
+
+def run_modes(facts, report, config, prefix="c15.mode", families=None, counter="operator_and_checked_forwarders"):
+    fams = families or OVERFLOWING_FAMILIES
+    for b in facts.fn_bodies():
+        if b["kind"] == "Closure":
+            continue
+        own = family(b.get("name"))
+        if own not in fams:
+            continue
+        my = _mode(b.get("name"))
+        is_operator = my == "plain" and (b.get("impl_trait") or "").startswith(OPERATOR_TRAITS)
+        if not is_operator and my != "checked":
+            continue
+        st = b.get("impl_self") or ""
+        if "wrapping::Wrapping" in st or "modular::" in (st + b["id"]):
+            continue    # Wrapping<T> wraps by definition; modular forms cannot overflow
+        view = mir.BodyView(b)
+        live = view.live_blocks()
+        if any(view.blocks[i]["term"]["k"] == "switch" for i in live):
+            continue
+        calls = [view.blocks[i]["term"] for i in live if view.blocks[i]["term"]["k"] == "call"]
+        if not (1 <= len(calls) <= 4):
+            continue
+        fam_calls = []
+        for t in calls:
+            if _neutral_callee(t):
+                continue
+            nm = mir.last_seg(mir.callee_name(t)) or mir.last_seg(mir.callee_decl(t))
+            f = family(nm) or family(mir.last_seg(mir.callee_decl(t)))
+            if f and (f == own or f in COMPAT.get(own, ())):
+                fam_calls.append((t, nm))
+        if len(fam_calls) != 1:
+            continue
+        t, nm = fam_calls[0]
+        report.count(counter)
+        key = "%s|%s" % (prefix, norm_id(b["id"]))
+        cm = _mode(nm)
+        if cm in ("wrapping", "saturating"):
+            report.add(Instance(key, prefix, "violation",
+                                "`%s` (%s form of `%s` on `%s`) forwards to the %s form `%s`: it must %s when the true "
+                                "result is out of range, but the callee silently %s" % (
+                                    b.get("name"), "operator" if is_operator else "checked", own, st, cm, nm,
+                                    "panic" if is_operator else "report failure",
+                                    "wraps" if cm == "wrapping" else "saturates"), t["s"],
+                                {"body": b["id"], "callee": mir.callee_name(t)}), config)
+        else:
+            report.add(Instance(key, prefix, "ok", "auto: %s form forwards to the %s form `%s`" % (
+                "operator" if is_operator else "checked", cm, nm), t["s"], {"body": b["id"]}), config)
